@@ -24,3 +24,8 @@ add('C14', 'exploration', 'whole-text-image differ + /proc/self/maps page-permis
     'Real patch/unpatch and WriteTo calls are executed on thousands of functions, synthetic short/straddling functions and boundary-crossing writes; after every step the complete executable image is compared with its pristine copy and page permissions are read back; a second run under strace checks that no mprotect ever drops PROT_EXEC and every touched page ends R|X.',
     'Image monitor covers file-backed executable mappings of the test binary; synthetic cases live in a harness mapping; the strace pass uses a reduced case list.',
     'DESIGN.md 2 C14')
+
+add('C03', 'translation_validation', 'runtime translation validation of every trampoline goom builds (reference-decoder lock-step) + execution monitor over a generated zoo under stack-headroom sweeps',
+    'Every function of an ~11.8k-function binary is handed to the real fixOrigin path and the produced trampoline is validated instruction by instruction against the original prologue (same instruction, same absolute targets, correct return jump, confinement); refusals are checked to leave everything untouched. A generated zoo is executed through the public API under warm / fresh-goroutine / depth-sweep regimes with result and callback-count oracles. programs = trampolines validated.',
+    'Trusts the reference x86 decoder; population = functions linkable here with the repo toolchain (go1.23.5); far (non-text) placeholders are outside the property\'s domain.',
+    'DESIGN.md 2 C03')
